@@ -78,30 +78,30 @@ class VFact:
 
 
 class CFact:
-    """`x == true  =>  f`  for a bool variable x assigned in several places (the lowering of `let x = a && b;`)"""
-    __slots__ = ("x", "f", "deps")
+    """`x == pol  =>  f`  for a bool variable x assigned in several places (the lowering of `let x = a && b;` / `a || b`)"""
+    __slots__ = ("x", "f", "deps", "pol")
 
-    def __init__(self, x, f):
-        self.x, self.f = x, f
+    def __init__(self, x, f, pol=True):
+        self.x, self.f, self.pol = x, f, pol
         self.deps = frozenset(f.deps) | {("L", x)}
 
     def key(self):
-        return ("CF", self.x, self.f.key())
+        return ("CF", self.x, self.pol, self.f.key())
 
     def is_const(self):
         return False
 
 
 class CFalse:
-    """x is false on every path reaching here (so `x == true => anything`)"""
-    __slots__ = ("x", "deps")
+    """x is `not pol` on every path reaching here (so `x == pol => anything`); CFalse(x) = "x is false", CFalse(x, False) = "x is true" """
+    __slots__ = ("x", "deps", "pol")
 
-    def __init__(self, x):
-        self.x = x
+    def __init__(self, x, pol=True):
+        self.x, self.pol = x, pol
         self.deps = frozenset({("L", x)})
 
     def key(self):
-        return ("CFalse", self.x)
+        return ("CFalse", self.x, self.pol)
 
     def is_const(self):
         return False
@@ -110,10 +110,10 @@ class CFalse:
 def meet(A, B):
     out = {}
     for k, f in A.items():
-        if k in B or (isinstance(f, CFact) and ("CFalse", f.x) in B):
+        if k in B or (isinstance(f, CFact) and ("CFalse", f.x, f.pol) in B):
             out[k] = f
     for k, f in B.items():
-        if k not in out and isinstance(f, CFact) and ("CFalse", f.x) in A:
+        if k not in out and isinstance(f, CFact) and ("CFalse", f.x, f.pol) in A:
             out[k] = f
     return out
 
@@ -359,7 +359,7 @@ class DecoderAnalysis:
                     # `let ok = a && b; ... if ok {`: what held where ok was given a value that can be true
                     for f in facts.values():
                         if isinstance(f, CFact) and f.x == e[1]:
-                            for tgt in true_t:
+                            for tgt in (true_t if f.pol else false_t):
                                 res.setdefault(tgt, []).append(f.f)
                     return res
                 if e[0] == "call" and e[1] in ("std::result::Result::is_err", "std::result::Result::is_ok",
@@ -466,45 +466,7 @@ class DecoderAnalysis:
             x = st[1][0]
             facts = kill(facts, ("L", x))
             if x in flags or (x == 0 and record is not None):
-                e = ch.rvalue(st[2], 0)
-                neg = False
-                while e[0] == "un" and e[1] == "Not":
-                    neg = not neg
-                    e = e[2]
-                plain = [f for f in facts.values() if not isinstance(f, (CFact, CFalse)) and ("L", x) not in f.deps]
-                extra = []
-                is_false = e[0] == "const" and e[1] in (0, False) and not neg or (e[0] == "const" and e[1] in (1, True) and neg)
-                if not is_false:
-                    tf = cmp_facts(e)
-                    if tf is not None:
-                        extra += tf[1] if neg else tf[0]
-                    if e[0] == "local" and e[1] in flags and not neg:
-                        extra += [f.f for f in facts.values() if isinstance(f, CFact) and f.x == e[1]]
-                    if e[0] == "call" and e[1] in self.prog.bodies and not neg:
-                        extra += self.summary_facts(lz, e, "true")
-                if x == 0 and record is not None:
-                    rt = body.ty(0)
-                    if rt["s"] == "bool":
-                        if not is_false:
-                            record.append(("true", plain + extra))
-                    else:
-                        tag = "any"
-                        if e[0] == "agg" and e[1][0] == "adt" and e[1][1] in ("std::option::Option", "std::result::Result"):
-                            tag = e[1][2]
-                        elif e[0] == "const" and "None" in (e[2] or ""):
-                            tag = "None"
-                        elif e[0] == "via" and e[1] == "std::ops::FromResidual::from_residual":
-                            tag = "Err" if rt.get("d") == "std::result::Result" else "None"
-                        record.append((tag, plain))
-                if x in flags:
-                    if is_false:
-                        facts[("CFalse", x)] = CFalse(x)
-                    else:
-                        for f in plain + extra:
-                            if ("L", x) not in f.deps:
-                                cf = CFact(x, f)
-                                facts[cf.key()] = cf
-                return facts
+                return define_bool(facts, x, ch.rvalue(st[2], 0), record)
             if x in ch.unstable or len(body.defs(x)) > 1:
                 # definition facts  x == rvalue  (linear, not mentioning x)
                 v = lz.lin(ch.rvalue(st[2], 0))
@@ -513,6 +475,61 @@ class DecoderAnalysis:
                     add(facts, xl - v)
                     add(facts, v - xl)
             return facts
+
+        def define_bool(facts, x, e, record=None):
+            """facts after `x = e` for a bool flag x (or the bool / Result return place when exits are recorded)"""
+            if True:
+                neg = False
+                while e[0] == "un" and e[1] == "Not":
+                    neg = not neg
+                    e = e[2]
+                plain = [f for f in facts.values() if not isinstance(f, (CFact, CFalse)) and ("L", x) not in f.deps]
+                is_const = e[0] == "const" and e[1] in (0, 1, True, False)
+                cval = (bool(e[1]) != neg) if is_const else None
+                is_false = cval is False
+                extra, extra_f = [], []      # what the value being true / false adds
+                if not is_const:
+                    tf = cmp_facts(e)
+                    if tf is not None:
+                        extra += tf[1] if neg else tf[0]
+                        extra_f += tf[0] if neg else tf[1]
+                    if e[0] == "call" and e[1] in ("std::result::Result::is_err", "std::result::Result::is_ok",
+                                                   "std::option::Option::is_some", "std::option::Option::is_none") and e[2]:
+                        k_, deps_ = vkey(lz, e[2][0])
+                        tv, fv = {"is_err": ("Err", "Ok"), "is_ok": ("Ok", "Err"), "is_some": ("Some", "None"), "is_none": ("None", "Some")}[e[1].rsplit("::", 1)[-1]]
+                        (extra_f if neg else extra).append(VFact(k_, tv, deps_))
+                        (extra if neg else extra_f).append(VFact(k_, fv, deps_))
+                    if e[0] == "local" and e[1] in flags:
+                        for f in facts.values():
+                            if isinstance(f, CFact) and f.x == e[1]:
+                                ((extra if f.pol else extra_f) if not neg else (extra_f if f.pol else extra)).append(f.f)
+                    if e[0] == "call" and e[1] in self.prog.bodies and not neg:
+                        extra += self.summary_facts(lz, e, "true")
+                if x == 0 and record is not None:
+                    rt = body.ty(0)
+                    if rt["s"] == "bool":
+                        if not is_false:
+                            record.append(("true", [f for f in plain + extra if isinstance(f, Lin)]))
+                    else:
+                        tag = "any"
+                        if e[0] == "agg" and e[1][0] == "adt" and e[1][1] in ("std::option::Option", "std::result::Result"):
+                            tag = e[1][2]
+                        elif e[0] == "const" and "None" in (e[2] or ""):
+                            tag = "None"
+                        elif e[0] == "via" and e[1] == "std::ops::FromResidual::from_residual":
+                            tag = "Err" if rt.get("d") == "std::result::Result" else "None"
+                        record.append((tag, [f for f in plain if isinstance(f, Lin)]))
+                if x in flags:
+                    for pol, add_ in ((True, extra), (False, extra_f)):
+                        if cval is not None and cval != pol:
+                            c_ = CFalse(x, pol)       # the variable is `not pol` here: neutral for `x == pol => ..`
+                            facts[c_.key()] = c_
+                        else:
+                            for f in plain + add_:
+                                if ("L", x) not in f.deps:
+                                    cf = CFact(x, f, pol)
+                                    facts[cf.key()] = cf
+                return facts
 
         bases = {}
 
@@ -592,6 +609,9 @@ class DecoderAnalysis:
                     facts = kill(facts, ("C", bb))
                     if not t["dest"][1]:
                         facts = kill(facts, ("L", t["dest"][0]))
+                        if t["dest"][0] in flags:
+                            # `let bad = a || key.is_none();` - the last operand is a call whose result lands in the flag
+                            facts = define_bool(facts, t["dest"][0], ch.call(t, bb, 0))
                 elif t["k"] == "assert" and t["msg"].startswith("BoundsCheck"):
                     e = ch.origin(t["cond"])
                     if e[0] == "bin" and e[1] == "Lt":
